@@ -185,6 +185,20 @@ class Ref:
             return [zeros[0]]
         return self.dominated_criterion(ops)
 
+    # user-written filters used by the harness (gen.custom_filter)
+    def f_custom_keep_last(self, ops):
+        return ops[-1:]
+
+    def f_custom_machine0(self, ops):
+        keep = [o for o in ops if 0 in self.op_machines[o]]
+        return keep or ops
+
+    def f_custom_latest_start(self, ops):
+        if not ops:
+            return ops
+        best = max(self.est(o) for o in ops)
+        return [o for o in ops if self.est(o) == best]
+
     def apply_filters(self, names, ops):
         for n in names or []:
             ops = getattr(self, "f_" + n)(ops)
